@@ -823,25 +823,8 @@ func c12Retry(c *Ctx, a *clientAnchors) {
 	// doubling happens only on the deadline error
 	errv := ssa.Value(call)
 	if dbl != nil {
-		var dlE Edge
-		found := false
-		for _, b := range fn.Blocks {
-			iff := ifOf(b)
-			if iff == nil {
-				continue
-			}
-			if bo, ok := iff.Cond.(*ssa.BinOp); ok && (bo.Op == token.EQL || bo.Op == token.NEQ) {
-				xs, ys := sx.Of(bo.X).String(), sx.Of(bo.Y).String()
-				dl := "load(global(" + a.short + ".errDeadlineExceeded))"
-				if (bo.X == errv && ys == dl) || (bo.Y == errv && xs == dl) {
-					found = true
-					dlE = Edge{b, b.Succs[0]}
-					if bo.Op == token.NEQ {
-						dlE = Edge{b, b.Succs[1]}
-					}
-				}
-			}
-		}
+		dlE, byIdDrv, found := sentinelTestEdge(sx, fn, errv, "load(global("+a.short+".errDeadlineExceeded))")
+		c12IdentityConsistent(c, a, byIdDrv && found)
 		if !found {
 			r.Violation("C12-K1", key("deadline error recognised"), c.P.ipos(call), "the try's result is not compared with the internal deadline error")
 		} else {
@@ -992,6 +975,41 @@ func c12Transmit(c *Ctx, a *clientAnchors) {
 	r.Check(strings.HasPrefix(b0, "call[(*dhcpv") && strings.Contains(b0, ").ToBytes]") && strings.HasSuffix(b0, wantB), "C12-K2", key("transmitted bytes are msg.ToBytes()"), c.P.ipos(write), "symx", "WriteTo payload is "+b0)
 	d0 := sx.Of(write.Call.Args[1]).String()
 	r.Check(d0 == sx.Of(a.send.Params[1]).String(), "C12-K2", key("transmitted to the requested destination"), c.P.ipos(write), "symx", "WriteTo destination is "+d0)
+	// K6: a failed transmission fails the try: on the WriteTo-error edge every return of send carries a non-nil error
+	// (whatever kind of error it is) — the retry driver's "any other error is returned at once" rests on it
+	if werr := extractOf(write, 1); werr == nil {
+		r.Violation("C12-K6", key("send looks at WriteTo's error"), c.P.ipos(write), "the error result of WriteTo is dropped: a failed transmission counts as sent and the try waits out its timeout")
+	} else {
+		var nn Edge
+		found := false
+		for _, b := range a.send.Blocks {
+			if iff := ifOf(b); iff != nil {
+				if _, e, ok := nilEdgesOf(iff, func(y ssa.Value) bool { return y == ssa.Value(werr) }); ok {
+					nn, found = e, true
+				}
+			}
+		}
+		if !found {
+			r.Violation("C12-K6", key("send looks at WriteTo's error"), c.P.ipos(write), "no nil test of WriteTo's error")
+		} else {
+			okErr, where := true, c.P.ipos(write)
+			reach := reachFrom(nn.To, nil, nil)
+			onlyViaNN := len(nn.To.Preds) == 1
+			for _, rt := range returnsOf(a.send) {
+				if !reach[rt.Block()] || !onlyViaNN {
+					continue
+				}
+				if !(nn.To == rt.Block() || nn.To.Dominates(rt.Block())) {
+					continue
+				}
+				ev := rt.Results[len(rt.Results)-1]
+				if isNilConst(ev) || !definitelyError(ev, rt) {
+					okErr, where = false, c.P.ipos(rt)
+				}
+			}
+			r.Check(okErr && onlyViaNN, "C12-K6", key("every WriteTo error makes send fail"), where, "all returns on the WriteTo-error edge carry a non-nil error", "send reports success although WriteTo failed: the try waits out its timeout and the driver retransmits instead of returning the write error at once")
+		}
+	}
 	// K3: the message is not written between tries: every use of the message value in SendAndRead,
 	// the try and send is a field read, a call of a read-only method (judged by C20) or the logger.
 	nUses := 0
@@ -1138,6 +1156,40 @@ func sentinelFresh(c *Ctx, a *clientAnchors) {
 	r.Check(n == 1 && fresh, "C12-K1", key, p, "single store of an errors.New result", "errDeadlineExceeded is not a fresh error value (it aliases another error or is assigned more than once): a caller's context deadline, ErrNoResponse after Close, or a connection error is then taken for a try that timed out and retried")
 }
 
+// sentinelTestEdge: the edge of fn taken exactly when errv is recognised as the sentinel whose symx is dl —
+// `errv == sentinel`, `errv != sentinel` (else edge), a switch case on it, or errors.Is(errv, sentinel).
+// byIdentity reports whether the recognition is by == (a wrapped sentinel is then NOT recognised).
+func sentinelTestEdge(sx *symxer, fn *ssa.Function, errv ssa.Value, dl string) (e Edge, byIdentity, found bool) {
+	for _, b := range fn.Blocks {
+		iff := ifOf(b)
+		if iff == nil {
+			continue
+		}
+		cond, same := unwrapBool(iff.Cond)
+		if bo, ok := cond.(*ssa.BinOp); ok && (bo.Op == token.EQL || bo.Op == token.NEQ) {
+			xs, ys := sx.Of(bo.X).String(), sx.Of(bo.Y).String()
+			if (bo.X == errv && ys == dl) || (bo.Y == errv && xs == dl) {
+				t := (bo.Op == token.EQL) == same
+				e = Edge{b, b.Succs[1]}
+				if t {
+					e = Edge{b, b.Succs[0]}
+				}
+				return e, true, true
+			}
+		}
+		if cl, ok := cond.(*ssa.Call); ok && isFuncCall(cl.Common(), "errors", "Is") && len(cl.Call.Args) == 2 {
+			if cl.Call.Args[0] == errv && sx.Of(cl.Call.Args[1]).String() == dl {
+				e = Edge{b, b.Succs[1]}
+				if same {
+					e = Edge{b, b.Succs[0]}
+				}
+				return e, false, true
+			}
+		}
+	}
+	return Edge{}, false, false
+}
+
 func c12DeadlineSource(c *Ctx, a *clientAnchors) {
 	sentinelFresh(c, a)
 	r := c.R
@@ -1181,24 +1233,7 @@ func c12Map(c *Ctx, a *clientAnchors) {
 		r.Undecided("C12-K4", key("driver call"), c.P.pos(fn.Pos()), "retry driver not called")
 		return
 	}
-	var dlE Edge
-	found := false
-	for _, b := range fn.Blocks {
-		iff := ifOf(b)
-		if iff == nil {
-			continue
-		}
-		if bo, ok := iff.Cond.(*ssa.BinOp); ok && (bo.Op == token.EQL || bo.Op == token.NEQ) {
-			xs, ys := sx.Of(bo.X).String(), sx.Of(bo.Y).String()
-			if (bo.X == ssa.Value(drv) && ys == dl) || (bo.Y == ssa.Value(drv) && xs == dl) {
-				found = true
-				dlE = Edge{b, b.Succs[0]}
-				if bo.Op == token.NEQ {
-					dlE = Edge{b, b.Succs[1]}
-				}
-			}
-		}
-	}
+	dlE, _, found := sentinelTestEdge(sx, fn, ssa.Value(drv), dl)
 	if !found {
 		r.Violation("C12-K4", key("deadline error mapped to ErrNoResponse"), c.P.ipos(drv), "the driver's result is not compared with the internal deadline error: it escapes to the caller")
 		return
@@ -1346,4 +1381,69 @@ func ctorDefaultsFirst(c *Ctx, a *clientAnchors) {
 	})
 	r.Check(bad == "", "C12-K5", a.short+": defaults are set before the options run; no option-settable field is written afterwards", c.P.pos(a.ctor.Pos()), fmt.Sprintf("fields settable by options: %d; option call sites: %d", len(settable), len(optCalls)),
 		bad+": a default applied afterwards cannot tell \"not configured\" from an explicit zero (WithRetry(0), WithTimeout(0)), so the configured number of tries / timeout is not what the schedule uses")
+}
+
+// c12IdentityConsistent: when the retry driver recognises the internal deadline error by identity (==, switch), the
+// value the try returns on its deadline must be the sentinel itself: a wrapped sentinel (fmt.Errorf("…%w", …)) is a
+// different value, the driver takes it for "any other error" and returns at once — no retransmission ever happens.
+func c12IdentityConsistent(c *Ctx, a *clientAnchors, byIdentity bool) {
+	r, sx := c.R, c.Sx()
+	key := a.short + ".SendAndRead: the deadline case yields the value the retry driver tests for"
+	w, why := resolveWait(c, a)
+	if w == nil || w.iTimer < 0 {
+		r.Undecided("C12-K1", key, c.P.pos(a.try.Pos()), "wait select not resolved: "+why)
+		return
+	}
+	tb := selectCaseBlock(w.sel, w.iTimer)
+	dl := "load(global(" + a.short + ".errDeadlineExceeded))"
+	ok, got := false, ""
+	if tb != nil {
+		if ret, isRet := tb.Instrs[len(tb.Instrs)-1].(*ssa.Return); isRet && len(ret.Results) >= 1 {
+			v := ret.Results[len(ret.Results)-1]
+			got = sx.Of(v).String()
+			if got == dl {
+				ok = true
+			} else if cl, isCall := v.(*ssa.Call); isCall && !byIdentity && isFuncCall(cl.Common(), "fmt", "Errorf") && len(cl.Call.Args) == 2 {
+				// errors.Is in the driver sees through %w
+				if strings.Contains(sx.Of(cl.Call.Args[0]).String(), "%w") {
+					for _, av := range varargValues(cl.Call.Args[1]) {
+						if mi, isMI := av.(*ssa.MakeInterface); isMI {
+							av = mi.X
+						}
+						if sx.Of(av).String() == dl {
+							ok = true
+						}
+					}
+				}
+			}
+		}
+	}
+	how := "compared by identity"
+	if !byIdentity {
+		how = "tested with errors.Is"
+	}
+	r.Check(ok, "C12-K1", key, c.P.ipos(w.sel), "deadline case returns the sentinel ("+how+" in the driver)", "the deadline case yields "+got+" while the driver's test is "+how+": the deadline of a try is taken for another error, the call ends after the first try")
+}
+
+// varargValues: the values stored into the variadic argument array behind v (a slice of a "varargs" allocation)
+func varargValues(v ssa.Value) []ssa.Value {
+	sl, ok := v.(*ssa.Slice)
+	if !ok {
+		return nil
+	}
+	al, ok := sl.X.(*ssa.Alloc)
+	if !ok {
+		return nil
+	}
+	var out []ssa.Value
+	for _, ref := range *al.Referrers() {
+		if ia, ok := ref.(*ssa.IndexAddr); ok {
+			for _, r2 := range *ia.Referrers() {
+				if st, ok := r2.(*ssa.Store); ok && st.Addr == ssa.Value(ia) {
+					out = append(out, st.Val)
+				}
+			}
+		}
+	}
+	return out
 }
